@@ -597,6 +597,7 @@ func checkC16(w *World, r *Report) {
 	checkSaveWrites(w, r)
 	checkCompiledImmutable(w, r)
 	checkLoadedTreeIsParsed(w, r)
+	checkCompileUsesOwnSource(w, r)
 }
 
 func (w *World) compareWire(r *Report, wfd, rfd *ast.FuncDecl, wo, ro []wireOp, helper bool, helperPairOK bool) bool {
@@ -1513,4 +1514,102 @@ func checkCompiledImmutable(w *World, r *Report) {
 		})
 	}
 	r.Counts["stores to CompiledTemplate fields"] = n
+}
+
+// checkCompileUsesOwnSource — R16.10: compiling a template compiles THAT template.  Every
+// *CompiledTemplate a method of Template returns is, through phis and helpers that receive the
+// template itself, a freshly built CompiledTemplate whose Source is the template's own source
+// field — never something read from a file or decoded from bytes: the stored compiled form may
+// belong to another version of the source than the one the engine holds and renders.
+func checkCompileUsesOwnSource(w *World, r *Report) {
+	n := 0
+	var okValue func(v ssa.Value, tmpl ssa.Value, depth int) string
+	okValue = func(v ssa.Value, tmpl ssa.Value, depth int) string {
+		v = unspill(v)
+		if depth > 6 {
+			return "too deep"
+		}
+		switch x := v.(type) {
+		case *ssa.Const:
+			return ""
+		case *ssa.Phi:
+			for _, e := range x.Edges {
+				if why := okValue(e, tmpl, depth+1); why != "" {
+					return why
+				}
+			}
+			return ""
+		case *ssa.Extract:
+			return okValue(x.Tuple, tmpl, depth)
+		case *ssa.Alloc:
+			// &CompiledTemplate{…}: Source must be tmpl.source
+			found := ""
+			for _, ref := range *x.Referrers() {
+				fa, ok := ref.(*ssa.FieldAddr)
+				if !ok || fa.Referrers() == nil {
+					continue
+				}
+				if _, f := fieldOfAddr(fa); f != "Source" {
+					continue
+				}
+				for _, r2 := range *fa.Referrers() {
+					if st, ok := r2.(*ssa.Store); ok && st.Addr == ssa.Value(fa) {
+						if base, ok := fieldLoad(unspill(st.Val), "Template", "source"); ok && sameValue(unspill(base), unspill(tmpl)) {
+							found = "ok"
+						} else {
+							return "a CompiledTemplate whose Source is not the template's own source field"
+						}
+					}
+				}
+			}
+			if found == "" {
+				return "a CompiledTemplate without a Source taken from the template"
+			}
+			return ""
+		case *ssa.Call:
+			g := x.Call.StaticCallee()
+			if g == nil || !isTwigFn(g) || len(g.Blocks) == 0 {
+				return "the result of " + x.Call.String()
+			}
+			idx := -1
+			for i, a := range x.Call.Args {
+				if sameValue(unspill(a), unspill(tmpl)) {
+					idx = i
+				}
+			}
+			if idx < 0 || idx >= len(g.Params) {
+				return "the result of " + g.Name() + ", which is not handed the template"
+			}
+			why := ""
+			instrsOf(g, func(in ssa.Instruction) {
+				if ret, ok := in.(*ssa.Return); ok && why == "" && len(ret.Results) > 0 {
+					why = okValue(retResults(ret)[0], g.Params[idx], depth+1)
+				}
+			})
+			return why
+		}
+		return v.String()
+	}
+	for _, fn := range w.pkgFuncs() {
+		if fn.Signature.Recv() == nil || fn.Synthetic != "" || !isNamed(deref(fn.Signature.Recv().Type()), twigPath, "Template") {
+			continue
+		}
+		if fn.Signature.Results().Len() == 0 || !isNamed(deref(fn.Signature.Results().At(0).Type()), twigPath, "CompiledTemplate") {
+			continue
+		}
+		n++
+		why := ""
+		instrsOf(fn, func(in ssa.Instruction) {
+			if ret, ok := in.(*ssa.Return); ok && why == "" {
+				why = okValue(retResults(ret)[0], fn.Params[0], 0)
+			}
+		})
+		construct := "the compiled form is built from the template's own source"
+		if why == "" {
+			r.ok("R16.10", ssaName(fn), construct, w.posOf(fn.Pos()), "every returned CompiledTemplate takes Source from the receiver's source field", true)
+		} else {
+			r.bad("R16.10", ssaName(fn), construct, w.posOf(fn.Pos()), "the method can return "+why+": a compiled form that was read back (from the compiled store, from bytes) can belong to another version of the source than the template the engine holds, so the compiled template renders differently from the template it was made from")
+		}
+	}
+	r.floor("Template methods returning a compiled form", n, 1)
 }
